@@ -7,7 +7,9 @@ namespace Rl4co.Driver.Mcp
 open Rl4co.Proto
 open Rl4co.Driver.Flp (statesOf rowStr)
 
-def fnMem (w : Nat) (xs : List Int) : Nat → Nat → Nat := fun j k => (xs.getD (j * w + k) 0).toNat
+def fnMem (w : Nat) (xs : List Int) : Nat → Nat → Nat :=
+  let arr := xs.toArray
+  fun j k => (arr.getD (j * w + k) 0).toNat
 
 /-- `mcp.episode nSets nItems maxSize quota | membership nSets·maxSize row-major | weights nItems | actions`
 reply: masks/done/adm trace, per-state `chosen` bits, `weights` rows, remaining `mem` rows (states
@@ -17,7 +19,7 @@ def episode (toks : List String) : Option String := do
   let [hd, mm, ww, acts] ← parseSections toks | none
   let [ns, ni, ms, q] := hd | none
   let ns := ns.toNat; let ni := ni.toNat; let ms := ms.toNat
-  let i : Rl4co.Mcp.Inst := { nSets := ns, nItems := ni, maxSize := ms, quota := q, mem := fnMem ms mm, w := fn1 ww }
+  let i : Rl4co.Mcp.Inst := { nSets := ns, nItems := ni, maxSize := ms, quota := q, mem := fnMem ms mm, w := Rl4co.Driver.Flp.fn1A ww }
   let as := toNats acts
   let tr := episodeTrace Rl4co.Mcp.env i as
   let sts := statesOf Rl4co.Mcp.env i as
@@ -37,7 +39,7 @@ def opt (toks : List String) : Option String := do
   let [hd, mm, ww, _] ← parseSections toks | none
   let [ns, ni, ms, q] := hd | none
   let ns := ns.toNat; let ni := ni.toNat; let ms := ms.toNat
-  let i : Rl4co.Mcp.Inst := { nSets := ns, nItems := ni, maxSize := ms, quota := q, mem := fnMem ms mm, w := fn1 ww }
+  let i : Rl4co.Mcp.Inst := { nSets := ns, nItems := ni, maxSize := ms, quota := q, mem := fnMem ms mm, w := Rl4co.Driver.Flp.fn1A ww }
   pure s!"opt={Rl4co.Spec.Mcp.optimum i} nfeas={(Rl4co.Spec.Mcp.candidates i).length}"
 
 def handlers : List (String × (List String → Option String)) :=
